@@ -127,6 +127,9 @@ func HostileRandom(t *rapid.T) (src, family string) {
 	default:
 		n := []int{50, 200, 1000, 3000}[rapid.IntRange(0, 3).Draw(t, "n")]
 		kind := rapid.IntRange(0, 9).Draw(t, "nestkind")
+		if (kind == 4 || kind == 6) && n > 1000 {
+			n = 1000 // the printed text grows with the square of the depth (indentation)
+		}
 		if kind == 5 && n > 300 {
 			// the printer needs time cubic in the nesting depth of function literals (DESIGN, C17 notes):
 			// 1000 levels take seconds, 3000 more than a minute; keep the case count useful
